@@ -255,7 +255,7 @@ Definition atomic_op (o : op) : Prop := match o with Handshake _ _ _ _ | CloseCo
 
 Lemma M_step_atomic clg k s o : atomic_op o -> M clg s -> M clg (fst (step Current k s o)).
 Proof.
-  intros Ha Hm. destruct o as [c|c kind x isCtl|c|c|c|c|x newc| |d|c pre|c x|c t|c|c pre]; cbn [step]; try contradiction.
+  intros Ha Hm. destruct o as [c|c kind x isCtl|c|c|c|c|x newc| |d|c pre|c x|c t|c|c pre|c x0]; cbn [step]; try contradiction.
   - destruct ((0 <? maxConn k) && (maxConn k <=? N.of_nat (length (sess s)))); [exact Hm|].
     destruct (mem c (streams s)); [exact Hm|]. destruct Hm as [H1 H2 H3 H4]. split; assumption.
   - destruct (get c (reg s)) as [r|] eqn:E; [|exact Hm]. cbn [fst].
@@ -278,6 +278,9 @@ Proof.
   - destruct (mem c (sess s)); [|exact Hm]. cbn [fst].
     pose proof (M_unregister clg c s Hm) as [H1 H2 H3 H4]. split; assumption.
   - destruct (mem c (streams s)); [|exact Hm]. destruct Hm as [H1 H2 H3 H4]. split; assumption.
+  - destruct (mem c (sess s) && negb (mem c (closed s))) eqn:Eg; [|exact Hm].
+    cbn [fst]. apply andb_true_iff in Eg. destruct Eg as [_ Eg2]. apply negb_true_iff in Eg2.
+    apply M_bump. apply M_rereg; assumption.
   - destruct (mem c (sess s) && negb (mem c (closed s))) eqn:Eg; [|exact Hm].
     cbn [fst]. apply andb_true_iff in Eg. destruct Eg as [_ Eg2]. apply negb_true_iff in Eg2.
     apply M_bump. apply M_rereg; assumption.
@@ -312,7 +315,7 @@ Proof.
       rewrite mem_rem_other by exact Hne. exact (H4 c' r Hg).
     + cbn [snd g closing]. apply M_tunnel_remove. exact Hm.
   - destruct prog as [|o t]; [exact Hm|].
-    destruct o as [c|c kind x isCtl|c|c|c|c|x newc| |d|c pre|c x|c t0|c|c pre];
+    destruct o as [c|c kind x isCtl|c|c|c|c|x newc| |d|c pre|c x|c t0|c|c pre|c x0];
       try (cbn [snd g closing]; apply M_step_atomic; [exact I|exact Hm]).
     + destruct (mem c (closed (g sh))) eqn:Ec; [exact Hm|].
       pose proof (M_phaseA (closing sh) k c kind x (g sh) Hm Ec) as Ha.
